@@ -82,6 +82,7 @@ REWRITES = {
     "eta_expand_variant_ctor": ("re", r"\.to_error\((\w+)::(\w+)\)", r".to_error(|s: String| -> (r: \1) ensures r == \1::\2(s) { \1::\2(s) })", "a tuple-variant constructor passed as a function value is written as the closure it denotes (eta expansion), with its obvious postcondition"),
     "string_clone_self_value": ("re", r"self\.value\.clone\(\)", r"string_clone(&self.value)", "String::clone -> shim (`r@ == s@`)"),
     "string_clone_self_name_value": ("re", r"self\.name\.value\.clone\(\)", r"string_clone(&self.name.value)", "String::clone -> shim (`r@ == s@`)"),
+    "call_argument_loop": ("loop_to_call", r"for\s*\(i,\s*\(arg,\s*param\)\)\s*in\s*std::iter::zip\(", "call_arguments_loop(&mut self.arguments, &proc_entry.parameters, &self.name, table);", "R6: the argument loop of CallStatement::analyze is replaced by a call whose contract is `the lifted loop body (verified as call_argument_rule) is applied to argument i and parameter i for every i below both lengths`"),
     "drop_const_fn": ("re", r"\bconst fn\b", "fn", "const fn that calls non-const shim"),
 }
 
@@ -216,6 +217,35 @@ def apply_rewrite(name, text):
             sites.append({"from": out[rs:k][:120], "to": new[:120]})
             out = out[:rs] + new + out[k:]
         return out, {"rewrite": name, "why": why, "sites": sites}
+    if spec[0] == "loop_to_call":
+        _, pat, repl, why = spec
+        m = re.search(pat, text)
+        if not m:
+            return text, {"rewrite": name, "why": why, "sites": []}
+        # the loop statement ends with the `}` that closes its body: first `{` at paren depth 0 after the header
+        k, depth = m.end(), 1
+        while depth:
+            if text[k] in "([":
+                depth += 1
+            elif text[k] in ")]":
+                depth -= 1
+            k += 1
+        while text[k] != "{":
+            if text[k] == "(":
+                d2 = 1
+                k += 1
+                while d2:
+                    d2 += text[k] == "("
+                    d2 -= text[k] == ")"
+                    k += 1
+                continue
+            k += 1
+        d3, e = 1, k + 1
+        while d3:
+            d3 += text[e] == "{"
+            d3 -= text[e] == "}"
+            e += 1
+        return text[:m.start()] + repl + text[e:], {"rewrite": name, "why": why, "sites": [{"from": text[m.start():m.start() + 120] + " ... }", "to": repl}]}
     if spec[0] == "chain_fmc":
         why = spec[3]
         pat = re.compile(r"\.\s*iter\(\)\s*\.\s*flat_map\s*\(")
@@ -704,6 +734,9 @@ def emit_block(blk, rel, out_lines, meta):
             else:
                 ins.append((toks[bf].start, payload + [("{", tl)], order))
                 ins.append((toks[bl].end, [(" }", tl)], order, "inline"))
+        elif d == "at_end" and fname is not None:
+            toks, fit = fn_in_text(text, fname)
+            ins.append((toks[fit.body_close].start, payload, order))
         elif d == "at_end":
             pos_e = text.rstrip().rfind("}")
             if pos_e < 0:
